@@ -673,25 +673,20 @@ func (spg StaticPredicateGroup) Merge(sp *StaticPredicate, IsOr bool) error {
 	}
 	tgtSP := spg.Add(sp.Column) // Adds a new SP if not already there
 	if sp.ContentsEnum.IsSet(MINBOUND) {
-		tgtSP.ContentsEnum.AddOption(MINBOUND)
 		if sp.ContentsEnum.IsSet(INCLUSIVEMIN) {
-			tgtSP.ContentsEnum.AddOption(INCLUSIVEMIN)
 			tgtSP.AddComparison(io.GTE, sp.min)
 		} else {
 			tgtSP.AddComparison(io.GT, sp.min)
 		}
 	}
 	if sp.ContentsEnum.IsSet(MAXBOUND) {
-		tgtSP.ContentsEnum.AddOption(MAXBOUND)
 		if sp.ContentsEnum.IsSet(INCLUSIVEMAX) {
-			tgtSP.ContentsEnum.AddOption(INCLUSIVEMAX)
 			tgtSP.AddComparison(io.LTE, sp.max)
 		} else {
 			tgtSP.AddComparison(io.LT, sp.max)
 		}
 	}
 	if sp.ContentsEnum.IsSet(EQUALITY) {
-		tgtSP.ContentsEnum.AddOption(EQUALITY)
 		tgtSP.AddComparison(io.EQ, sp.equal)
 	}
 	if sp.ContentsEnum.IsSet(LIKEPATTERN) {
@@ -715,6 +710,7 @@ type StaticPredicate struct {
 	min, max, equal      interface{} // Comparison bounds
 	likePattern, likeEsc string
 	ContentsEnum         StaticPredicateContentsEnum
+	contradiction        bool // two different equalities on the column
 }
 
 func NewStaticPredicate(column *ColumnReference) (sp *StaticPredicate) {
@@ -727,6 +723,9 @@ func (sp *StaticPredicate) IsFalse() bool {
 	/*
 		If this predicate is provably false internally, return true
 	*/
+	if sp.contradiction {
+		return true
+	}
 	match, _ := io.GenericComparison(sp.min, sp.max, io.GT)
 	return match
 }
@@ -811,35 +810,47 @@ func (cat *StaticPredicateContentsEnum) AnySet(checkOption ...StaticPredicateCon
 func (sp *StaticPredicate) AddComparison(op io.ComparisonOperatorEnum,
 	value interface{}) error {
 	/*
-		Set value of min/max/equal based on the operator
+		Set value of min/max/equal based on the operator.
+		A second bound on the same side keeps the TIGHTER of the two (the predicates are ANDed).
 	*/
 	switch op {
 	case io.EQ:
+		if sp.ContentsEnum.IsSet(EQUALITY) {
+			lt, _ := io.GenericComparison(value, sp.equal, io.LT)
+			gt, _ := io.GenericComparison(value, sp.equal, io.GT)
+			if lt || gt {
+				sp.contradiction = true // x = a AND x = b with a != b
+			}
+		}
 		sp.equal = value
 		sp.ContentsEnum.AddOption(EQUALITY)
 	case io.LT, io.LTE:
 		if sp.max == nil {
 			sp.SetMax(value, op == io.LTE)
-		} else {
-			isWithin, err := io.GenericComparison(value, sp.max, op)
-			if err != nil {
-				return err
-			}
-			if !isWithin {
-				sp.SetMax(value, op == io.LTE)
-			}
+			return nil
+		}
+		below, err := io.GenericComparison(value, sp.max, io.LT)
+		if err != nil {
+			return err
+		}
+		above, _ := io.GenericComparison(value, sp.max, io.GT)
+		if below || (!above && op == io.LT) {
+			sp.ContentsEnum.DelOption(INCLUSIVEMAX)
+			sp.SetMax(value, op == io.LTE)
 		}
 	case io.GT, io.GTE:
 		if sp.min == nil {
 			sp.SetMin(value, op == io.GTE)
-		} else {
-			isWithin, err := io.GenericComparison(value, sp.min, op)
-			if err != nil {
-				return err
-			}
-			if !isWithin {
-				sp.SetMin(value, op == io.GTE)
-			}
+			return nil
+		}
+		above, err := io.GenericComparison(value, sp.min, io.GT)
+		if err != nil {
+			return err
+		}
+		below, _ := io.GenericComparison(value, sp.min, io.LT)
+		if above || (!below && op == io.GT) {
+			sp.ContentsEnum.DelOption(INCLUSIVEMIN)
+			sp.SetMin(value, op == io.GTE)
 		}
 	}
 	return nil
